@@ -247,3 +247,26 @@ func TestC12FreshProcess(t *testing.T) {
 		col.CaseFP("C12FreshProcess", uint64(n), true, nil)
 	})
 }
+
+// TestEnumFirstUse: every entry point as the first library call of a process.
+// VERIF_FIRSTUSE_PROP selects the entry points of one property (C07 / C12).
+func TestEnumFirstUse(t *testing.T) {
+	prop := os.Getenv("VERIF_FIRSTUSE_PROP")
+	if prop == "" {
+		prop = "C12"
+	}
+	n := 0
+	for _, c := range firstUseCalls {
+		if prop == "C07" && c.prop != "C07" {
+			continue
+		}
+		spec := &FirstUseSpec{Entry: c.name}
+		res := checks["FirstUse"+prop].runSafely(spec)
+		n++
+		col.CaseFP("FirstUse"+prop, fingerprint([]byte(c.name)), true, func() interface{} { return spec }, res.Classes...)
+		if res.Err != nil {
+			enumFail(t, "FirstUse"+prop, spec, res.Err)
+		}
+	}
+	col.Exhaustive("FirstUse"+prop, fmt.Sprintf("%d public entry points, each as the first library call of a freshly started process, followed by all the others; compared with a warm process", n))
+}
